@@ -103,6 +103,9 @@ def observe(mid, what, seed, consumer_edits=False):
             return res
         if what == 'length':
             return repr(mid.length)
+        if what == 'names':
+            # MidiTrack.name: "the name field of the first track_name message in the track" ('' if there is none)
+            return [tr.name for tr in mid.tracks]
         if what == 'merged':
             got = mid.merged_track
             res = freeze_list(got)
@@ -216,8 +219,10 @@ def rand_msg(rng):
         return Message('program_change', program=rng.randrange(128), time=d)
     if r < 0.85:
         return MetaMessage('marker', text=rng.choice(('a', 'b', '')), time=d)
-    if r < 0.90:
+    if r < 0.88:
         return MetaMessage('end_of_track', time=d)
+    if r < 0.90:
+        return MetaMessage('track_name', name=rng.choice(('Lead', 'Bass', 'Drums', '')), time=d)
     if r < 0.95:
         return UnknownMetaMessage(rng.choice((0x0A, 0x60)), data=tuple(rng.randrange(256) for _ in range(rng.randrange(3))), time=d)
     return Message('sysex', data=(rng.randrange(128),), time=d)
@@ -245,7 +250,7 @@ def do_edit(rng, mid):
     if 0 < len(tracks) <= 3:
         names += ['mid.tracks*=2', 'mid.tracks[:]=']
     if tracks:
-        names += ['tracks.pop', 'tracks.remove', 'tracks.setitem', 'tracks.extend', 'track.append',
+        names += ['track.name=', 'track.name=', 'tracks.pop', 'tracks.remove', 'tracks.setitem', 'tracks.extend', 'track.append',
                   'track.insert', 'track.extend', 'track.name=', 'tracks.reverse', 'del tracks[i]'] * 1
         if any(len(t) for t in tracks):
             names += ['msg.time=', 'msg.attr=', 'msg.tempo=', 'track.pop', 'track.slice=', 'track.setitem',
@@ -339,7 +344,38 @@ def do_edit(rng, mid):
     elif e == 'track.extend':
         rng.choice(tracks).extend([rand_msg(rng), rand_msg(rng)])
     elif e == 'track.name=':
-        rng.choice(tracks).name = rng.choice(('n1', 'n2'))
+        tr = rng.choice(tracks)
+        r_ = rng.random()
+        if r_ < 0.3:
+            tr.name = rng.choice(('n1', 'n2'))
+        elif r_ < 0.55:
+            # a name event somewhere behind the first message (a track that starts with other meta events),
+            # and the program looks the name up / renames the track
+            if not any(m.type == 'track_name' for m in tr):
+                tr.insert(min(len(tr), rng.randrange(1, 4)), MetaMessage('track_name', name='deep', time=0))
+            if rng.random() < 0.5:
+                tr.name
+            else:
+                tr.name = 'renamed'
+        elif r_ < 0.85:
+            # another name event is put in front of whatever the track holds (by item assignment or insertion)
+            if len(tr) and rng.random() < 0.5:
+                tr[0] = MetaMessage('track_name', name='front', time=tr[0].time)
+            else:
+                tr.insert(0, MetaMessage('track_name', name='inserted', time=0))
+        elif r_ < 0.93:
+            tr.reverse()
+        else:
+            # the whole story in one go: the name sits behind the first message and has been looked up; then the
+            # first message is REPLACED by another name event (the positions of the others do not change)
+            if len(tr) < 2:
+                tr.extend([rand_msg(rng), rand_msg(rng)])
+            if tr[0].type == 'track_name':
+                tr[0] = rand_msg(rng).copy(time=tr[0].time) if rand_msg(rng).type != 'track_name' else Message('note_on', time=tr[0].time)
+            if not any(m.type == 'track_name' for m in tr):
+                tr.insert(1, MetaMessage('track_name', name='deep', time=0))
+            tr.name
+            tr[0] = MetaMessage('track_name', name='front', time=tr[0].time)
     elif e == 'track.pop':
         tr = rng.choice(ne)
         tr.pop(rng.randrange(len(tr)))
@@ -420,7 +456,7 @@ def do_edit(rng, mid):
 
 
 BLOCKED = []       # set once a save in another thread was seen to hang: not tried again in this process
-OBS = ('iter', 'length', 'merged', 'save', 'play', 'repr', 'save-to-path', 'save-in-another-thread')
+OBS = ('iter', 'length', 'merged', 'save', 'play', 'repr', 'save-to-path', 'save-in-another-thread', 'names', 'names')
 
 
 def history(ctx, seed, maxsteps):
@@ -533,6 +569,10 @@ def _history(ctx, seed, maxsteps, rng, mid, log, own_path):
             if before != after:
                 return nontrivial
             want = observe(twin, what, f'{seed}:{i}')
+            if what == 'names' and isinstance(got, list):
+                model_names = [next((m.name for m in tr if m.type == 'track_name'), '') for tr in mid.tracks]
+                ctx.check('observation == fresh twin', got == model_names, 'names-differ-from-first-track_name', case,
+                          lambda: {'step': i, 'log': log[-8:], 'got': got, 'first track_name of each track': model_names})
             if what == 'save' and isinstance(got, str):
                 # a successful save is also judged absolutely: the strict reference decoder reads the bytes
                 # back into the current contents (the twin shares every process-wide table and cache with
